@@ -112,6 +112,8 @@ def observe(r):
 
 
 def outcome_coq(o):
+    if o.get("operand_changed"):
+        return '(OutOther "a time operand was modified by the call")'
     if o["t"] == "time":
         if o["u"] not in UCOQ:
             return '(OutOther "unit")'
@@ -164,7 +166,19 @@ def run_action(a):
             raise KeyError(k)
     except Exception as e:  # noqa
         return {"t": "err", "e": err_coq(e), "cls": type(e).__name__, "msg": str(e)[:120]}
-    return observe(r)
+    out = observe(r)            # snapshot of the result (python ints), taken before anything else
+    # the time operands must still denote the same instants after the call (a reduction / operator that
+    # hands back or rewrites its operand in place would make every later use of that object wrong)
+    if k in ("arith", "cmp", "reduce"):
+        changed = []
+        for name, obj, desc in (("self", s, a["self"]),) + ((("other", v, a["o"]["t"]),) if k != "reduce" and a["o"]["kind"] == "time" else ()):
+            now = [int(x) for x in np.asarray(obj).ravel()]
+            if now != [int(x) for x in desc["p"]] or obj.time_unit != desc["u"] or (np.asarray(obj).ndim == 0) != desc["sc"]:
+                changed.append({"which": name, "before": desc["p"][:8], "after": now[:8], "unit_after": obj.time_unit})
+        if changed:
+            out = dict(out)
+            out["operand_changed"] = changed
+    return out
 
 
 def np_left(a):
@@ -241,6 +255,11 @@ def in_scope(vals):
 def oracle(a, o):
     """None when the property holds on this call, else Fail"""
     k = a["act"]
+    if o.get("operand_changed"):
+        what = a.get("op") or a.get("r") or k
+        return Fail("C01/%s/operand-modified" % str(what).lower(),
+                    "the call changed a time operand in place (it no longer denotes the same instants afterwards)",
+                    o["operand_changed"], "operands unchanged")
     if k == "ctor":
         d = a["data"]
         u = a["unit"]
